@@ -105,6 +105,10 @@ def children(E, R):
     return C13.children_real(E, R, True)
 
 
+def leaf_only(E, R, L, via, testnet):
+    return h_bip32.leaf_only(E, R, L, True, via, testnet)
+
+
 def cases(tier):
     cs = [Case("children", "children", weight=20, max_paths=5000,
                need=("bulk generation on a public node refuses an interval reaching hardened indexes",
@@ -122,6 +126,10 @@ def cases(tier):
         for h in range(L):
             cs.append(Case("chain[%d,hardened@%d]" % (L, h), "chain", dict(L=L, testnet=False, hard_at=h),
                            need=("derive_path with a hardened element raises on public data",)))
+    for L, via in ((1, "ckd"), (2, "derive_path"), (2, "ckd")):
+        cs.append(Case("leaf_only[%d,%s]" % (L, via), "leaf_only", dict(L=L, via=via, testnet=(via == "ckd" and L == 2)), weight=10 * L,
+                       max_paths=5000, need=("leaf kept alone (ancestors garbage-collected): parent fingerprint is that of the last parent",
+                                             "leaf kept alone (ancestors garbage-collected): xpub string payload")))
     return cs
 
 
@@ -130,4 +138,5 @@ def vectors():
     c = "873dff81c02f525623fd1fe5167eac3a55a049de3d314bb42ee227ffed37d508"
     return [("step", dict(testnet=False), dict(k=k, c=c, depth=0, pidx=0, fp="00000000", index=1)),
             ("step", dict(testnet=False), dict(k=k, c=c, depth=0, pidx=0, fp="00000000", index=2 ** 31)),
-            ("chain", dict(L=2, testnet=False, hard_at=None), dict(k=k, c=c, depth=0, pidx=0, fp="00000000", i0=0, i1=7))]
+            ("chain", dict(L=2, testnet=False, hard_at=None), dict(k=k, c=c, depth=0, pidx=0, fp="00000000", i0=0, i1=7)),
+            ("leaf_only", dict(L=2, via="ckd", testnet=False), dict(k=k, c=c, i0=0, i1=7))]
